@@ -36,7 +36,7 @@ CHECKS = {
    text="In-process, every assignment of the seven limit kinds (absent or one of two values, including 0 and 1) is combined with every schedule in {time never passes, clock expires at limit check k, stop lands at flag poll k} on each position, plus every node budget and every stop point of a depth-2 search consecutive searches on a kept cache and whole self-play games with the cache kept across positions; each run must return without panicking and log exactly one bestmove that is legal in the oracle's position. On the real executable the same assignments run with the real clock, up to three go per session each followed by isready, judged with a 5 s allowance.",
    ref="2/C09", note="""Trusted base: the hook runtime in src/rce_verif.rs (virtual clock, emulated stop, cache observer) and the assumption that it is the only source of time/stop nondeterminism in-process; single-threaded worker processes own their cache. Process-level timing uses loose wall-clock allowances.""", engine="cutpoints"),
  "C13": dict(tech="exhaustive enumeration of every interruption point of a search: re-execution per cut point for small searches (every node budget 1..T, every stop poll, every clock check on both clock paths, also on a warmed cache) and fork-based checkpointing for large ones (the process forks at every flag poll / limit check; the child is interrupted exactly there), with a differential prefix oracle on the observed cache writes and a cache-content snapshot oracle at stop cuts",
-   text="For each (position, depth) pair the search is interrupted at every point at which it can be: the cache writes seen by the observer hook in the interrupted run must be a prefix of those of the uninterrupted run from the same initial cache; after an emulated stop (noticed by the very poll that delivers it) no write at all may follow and the cache contents must equal the snapshot taken at the cut, whichever insert site wrote. Large searches (up to 105 k nodes quick / 1.5 M thorough) are covered by forking the live search at each poll instead of re-executing the prefix.",
+   text="For each (position, depth) pair the search is interrupted at every point at which it can be: the cache writes seen by the observer hook in the interrupted run must be a prefix of those of the uninterrupted run from the same initial cache; after an emulated stop (noticed by the very poll that delivers it) no write at all may follow and the cache contents must equal the snapshot taken at the cut, whichever insert site wrote. Large searches (up to 105 k nodes quick / 300 k thorough) are covered by forking the live search at each poll instead of re-executing the prefix.",
    ref="2/C13, 9.5", note="Trusted base: the hook runtime in src/rce_verif.rs (observer, snapshot, emulated stop, virtual clock, fork checkpoints). 'Clock fired' and 'nodes >= budget' are deliberately NOT taken as 'the engine has noticed the cut' (an engine that polls them every N nodes notices later and may legitimately write in between); those cuts are judged by the prefix oracle only. Quick tier: every second poll / check for the one large search.", engine="cutpoints"),
  "C14": dict(tech="exhaustive enumeration of depth limits N and of every cut point of node/time-limited searches, with a UCI info-line grammar and PV replay on the oracle; bounded session enumeration on the real executable",
    text="For each position every depth limit N (fresh and kept cache) must log info depth 1..N in order, each line valid UCI with a score and a non-empty PV that is legal move by move on the oracle, then exactly one bestmove; every node budget and clock point of a depth-3 search is checked for ordering, grammar and PV legality; whole self-play games (one go depth 4 per ply, cache kept across the positions of the game) are checked the same way, so stale cache entries of earlier searches are on the PV walk; go depth N is repeated on the real executable.",
